@@ -194,6 +194,14 @@ def contracts(T: Types, reg: Registry, ctx, pid="C01"):
         properties=[pid],
         note="init step of the induction: the only status ever written for an id without a record is REGISTERED",
     )
+    W = {"invocation_status_record": {"a": {"status": "PENDING", "runner_id": "r1", "timestamp": 1.0},
+                                      "b": {"status": "SUCCESS", "runner_id": None, "timestamp": 2.0}},
+         "status_index": {"PENDING": ["a"], "SUCCESS": ["b"], "RUNNING": []}}
+    atomic.witnesses = [{"fields": W, "args": {"invocation_id": "a", "status": "RUNNING", "runner_id": "r1"}},
+                        {"fields": W, "args": {"invocation_id": "zz", "status": "RUNNING", "runner_id": None}}]
+    internal.witnesses = [{"fields": W, "args": {"invocation_id": "a", "prev_status_record": W["invocation_status_record"]["a"],
+                                                 "new_record": {"status": "RUNNING", "runner_id": "r1", "timestamp": 3.0}}}]
+    get_rec.witnesses = [{"fields": W, "args": {"invocation_id": "b"}}]
     out = [get_lock, atomic, internal, get_rec, register]
     for c in out:
         reg.add(c)
